@@ -2,7 +2,7 @@ import os, vlib
 META = dict(
     engine='cosched',
     technique='stateless model checking: preemption-bounded exhaustive schedule enumeration (CHESS) of real PARSEC_OBJ_RETAIN/RELEASE/NEW on harness-defined class hierarchies with a logging destructor chain and ownership ground truth',
-    level_text='Every schedule with <= b preemptions (b=3 quick, 5 thorough) of all 2- and 3-thread combinations of balanced retain/release scripts of length <= 5 (hierarchy depth 1..4, static and malloc-ed objects) and of seven concurrent first-construction scripts is executed on the real object system; the destructor journal must be each level exactly once, most derived first, inside the last release overall and while no other thread still owns a reference; concurrently constructed objects must be fully constructed and the class descriptor consistent.',
+    level_text='Every schedule with <= b preemptions (retain/release scripts and 2-thread construction: b=2 quick, 5 thorough; 3-thread construction: b=1 quick, 2 thorough) of all 2- and 3-thread combinations of balanced retain/release scripts of length <= 5 (hierarchy depth 1..4, static and malloc-ed objects) and of seven concurrent first-construction scripts is executed on the real object system; the destructor journal must be each level exactly once, most derived first, inside the last release overall and while no other thread still owns a reference; concurrently constructed objects must be fully constructed and the class descriptor consistent.',
     level_note='Sequential consistency at instrumented accesses; 2-3 threads, <= 5 operations per thread; the class lock itself (file-static in parsec_object.c) is not a scheduling point, its blocking hook is.',
 )
 RULE = ("cosched: every schedule of each 2-3 thread retain/release or first-construction script over the real parsec_object_t/parsec_class_t "
@@ -15,11 +15,13 @@ def check(ctx):
     def leg(sets, bound, deadline):
         env = dict(os.environ); env['C34_SET'] = sets
         args = ['--bound', str(bound), '--jobs', str(vlib.NJOBS), '--outdir', vlib.OUT, '--deadline', str(deadline)]
-        ctx.run_engine(exe, args, label='obj-%s-b%d' % (sets, bound), timeout=deadline + 600, env=env)
+        ctx.run_engine(exe, args, label='obj-%s-b%d' % (sets.replace(',', '+'), bound), timeout=deadline + 600, env=env)
     if ctx.tier == 'quick':
-        leg('quick', 3, 70)
+        leg('quick', 2, 45)
+        leg('ctor3', 1, 20)
     else:
-        leg('all', 5, 1000)
+        leg('quick,more', 5, 700)
+        leg('ctor3', 2, 400)
     return ctx.finish(RULE, ["sequential consistency at instrumented accesses (no weak-memory effects)",
                              "gcc -fsanitize=thread instrumentation reports every access to the watched objects",
                              "threads respect the ownership contract (never release a reference they do not own)"])
